@@ -1059,7 +1059,18 @@ func (br *bodyRun) userAsserts(b *ssa.BasicBlock, idx int, ins ssa.Instruction, 
 			fc.assertHit = map[*Clause]int{}
 		}
 		fc.assertHit[a]++
+		if a.Kind == "reach" {
+			s2 := st.clone()
+			fc.assume(s2, fc.hyp(env, a.E))
+			fc.cover(s2, br.prefix+"reach:"+nm, ins.Pos(), "the anchored instruction is reachable: "+a.Src)
+			continue
+		}
 		fc.prove(env, a.E, st, br.prefix+"assert:"+nm, "assert", ins.Pos(), a.Src)
+		// the instruction the assertion is anchored to must stay reachable: an assertion in
+		// a branch that can no longer be taken would otherwise hold vacuously
+		if fc.assertHit[a] == 1 {
+			fc.cover(st, br.prefix+"cover:site:"+nm, ins.Pos(), "the instruction this assertion is anchored to is reachable")
+		}
 	}
 }
 
